@@ -24,7 +24,8 @@ RULE = ("stream cases = random selection under the subscription field (depth<=2:
         "resolvers) x event list of length 0..6 (per event: which paths raise ResolverError, which objects are null, list lengths; "
         "the root field itself may fail) x sync|async subscription resolver x iterator class|async generator source x "
         "per-event delays (loop spins before the gate opens) x inline|thread-offloaded blocking resolvers; refusal cases = every "
-        "documented refusal x runtimes, several root fields spelled through fragment spreads / inline fragments / nested fragments / "
+        "documented refusal x runtimes x (separate root types | ONE object type shared by subscription, query and mutation roots | by "
+        "subscription and query roots) incl. `{…}` shorthand and a query picked by operation_name, several root fields spelled through fragment spreads / inline fragments / nested fragments / "
         "aliases / other fields, zero collected fields, operation-selection and variable-coercion failures; accepted single-field "
         "spellings as mergeable duplicates, split selections, fragments, skipped siblings; plus a bounded-exhaustive block over all failure patterns of 3 events x 2 failing fields. "
         "distinct non-trivial = distinct canonical case with >=2 events or a refusal")
@@ -40,7 +41,7 @@ TRUSTED = [
 
 HARD_TIMEOUT = 10.0
 REFUSALS = ["multi-field", "no-sub-resolver", "unknown-field", "query-op", "mutation-op", "blocking-runtime", "threadpool-runtime",
-            "multi-expanded", "zero-fields", "opsel-unknown", "opsel-ambiguous", "vars"]
+            "multi-expanded", "zero-fields", "opsel-unknown", "opsel-ambiguous", "vars", "shorthand-op", "named-query-op"]
 EXPECTED_EXC = {
     "multi-field": "ExecutionError",
     "no-sub-resolver": "RuntimeError",
@@ -54,6 +55,8 @@ EXPECTED_EXC = {
     "opsel-unknown": "InvalidOperationError",
     "opsel-ambiguous": "InvalidOperationError",
     "vars": "VariablesCoercionError",
+    "shorthand-op": "RuntimeError",           # `{ … }` is a query
+    "named-query-op": "RuntimeError",         # a query picked by operation_name next to a subscription
 }
 LEAF = ("a", "ad", "bad", "badd")
 OBJ = ("o", "od")
@@ -187,6 +190,10 @@ def gen_case(rng):
         case = {"kind": "refusal", "refusal": r, "async_sub": rng.random() < 0.5,
                 "source": rng.choice(["iter", "agen"]), "threads": False, "sel": sel,
                 "events": [gen_event(rng, 0, [], 0.0)], "delays": [0, 0]}
+        if r == "mutation-op":
+            case["shared_root"] = rng.choice([None, "all"])
+        else:
+            case["shared_root"] = rng.choice([None, "all", "query"])
         if r == "multi-expanded":
             case["root"] = gen_root(rng, "multi", sel)
         elif r == "zero-fields":
@@ -200,6 +207,8 @@ def gen_case(rng):
             "delays": [rng.choice([0, 0, 1, 3]) for _ in range(n + 1)]}
     if rng.random() < 0.35:
         case["root"] = gen_root(rng, "single", sel)
+    if rng.random() < 0.25:
+        case["shared_root"] = rng.choice(["all", "query"])
     return case
 
 
@@ -263,13 +272,19 @@ def documents(case):
     tail = (" " + frags) if frags else ""
     if r == "opsel-ambiguous":
         tail += " subscription P { root: ev(n: 1) { zz: a } }"
+    if r == "shorthand-op":
+        return "{ %s }%s" % (body, tail), "{ %s }%s" % (body, tail)
+    if r == "named-query-op":
+        kw = "query       "
+        tail += " subscription P { root: ev(n: 1) { zz: a } }"
     return "%s Q%s { %s }%s" % (kw, decl, body, tail), "%s Q%s { %s }%s" % ("query       ", decl, body, tail)
 
 
 def request_extras(case):
     """(operation_name, variables) of the subscribe call"""
     r = case["refusal"]
-    return ("Missing" if r == "opsel-unknown" else None), ({} if r == "vars" else None)
+    opname = {"opsel-unknown": "Missing", "named-query-op": "Q"}.get(r)
+    return opname, ({} if r == "vars" else None)
 
 
 # ---------------------------------------------------------------------------------------------
@@ -402,9 +417,17 @@ def schemas(mode):
     Md = ObjectType("Mutation", [Field("a", Int)])
     sub_schema = Schema(query_type=Qd, mutation_type=Md, subscription_type=S1)
     twin = Schema(query_type=S2)
+    # ONE object type serving as subscription root AND query root AND mutation root
+    _, S3 = build()
+    shared = Schema(query_type=S3, mutation_type=S3, subscription_type=S3)
+    # … and as subscription + query root only
+    _, S4 = build()
+    shared_q = Schema(query_type=S4, subscription_type=S4)
     sub_schema.validate()
     twin.validate()
-    _SCHEMAS[mode] = (sub_schema, twin)
+    shared.validate()
+    shared_q.validate()
+    _SCHEMAS[mode] = (sub_schema, twin, shared, shared_q)
     return _SCHEMAS[mode]
 
 
@@ -428,7 +451,7 @@ def run_real(case):
     case = copy.deepcopy(case)
     text, _ = documents(case)
     opname, variables = request_extras(case)
-    sub_schema, _ = schemas("async")
+    sub_schema = schemas("async")[{"all": 2, "query": 3}.get(case.get("shared_root"), 0)]
     doc = parse(text)
     loop = asyncio.new_event_loop()
     out = {"refused": None, "results": [], "pulls": 0, "sub_calls": 0, "ended": False, "err": None}
@@ -514,7 +537,7 @@ def run_real(case):
 def expected_results(case):
     """k-th expected response: a FRESH blocking execution of the same selection with the k-th event as root"""
     from py_gql import graphql_blocking
-    _, twin = schemas("sync")
+    twin = schemas("sync")[1]
     _, qtext = documents(case)
     out = []
     for ev in case["events"]:
@@ -532,7 +555,8 @@ def oracle(case, real):
     if case["kind"] == "refusal":
         r = case["refusal"]
         if real["refused"] is None:
-            bad.append(("refusal-missing:%s%s" % (r, spelling_class(case)), "%s was accepted" % r))
+            bad.append(("refusal-missing:%s%s%s" % (r, spelling_class(case), ":shared-root-type" if case.get("shared_root") else ""),
+                        "%s was accepted%s" % (r, " (subscription root type shared with %s root)" % case["shared_root"] if case.get("shared_root") else "")))
         elif real["refused"] != EXPECTED_EXC[r]:
             bad.append(("refusal-class:%s:%s" % (r, real["refused"]), "%s refused with %s, documented %s" % (r, real["refused"], EXPECTED_EXC[r])))
         if real["pulls"] != 0:
@@ -628,7 +652,7 @@ def model_request(case):
     r = case["refusal"]
     return {
         "op": "subscribe",
-        "operation": {"query-op": "query", "mutation-op": "mutation"}.get(r, "subscription"),
+        "operation": {"query-op": "query", "mutation-op": "mutation", "shorthand-op": "query", "named-query-op": "query"}.get(r, "subscription"),
         "root": model_root(root_of(case)),
         "fieldDefined": r != "unknown-field",
         "hasSubResolver": r != "no-sub-resolver",
@@ -777,6 +801,15 @@ def exhaustive_cases():
             for s in ("iter", "agen"):
                 out.append({"kind": "refusal", "refusal": r, "async_sub": a, "source": s, "threads": False, "sel": copy.deepcopy(sel),
                             "events": [{"id": 0, "val": 1, "fail": [], "null": [], "len": {}}], "delays": [0, 0]})
+    for r in REFUSALS:
+        if r in ("multi-expanded", "zero-fields"):
+            continue
+        for shared in ("all", "query"):
+            if r == "mutation-op" and shared == "query":
+                continue          # no mutation root there: InvalidOperationError comes first
+            for a in (False, True):
+                out.append({"kind": "refusal", "refusal": r, "async_sub": a, "source": "iter", "threads": False, "sel": copy.deepcopy(sel),
+                            "events": [{"id": 0, "val": 1, "fail": [], "null": [], "len": {}}], "delays": [0, 0], "shared_root": shared})
     ev0 = {"id": 0, "val": 1, "fail": [], "null": [], "len": {}}
     ev1 = {"id": 1, "val": 2, "fail": ["root/x"], "null": [], "len": {}}
 
